@@ -2,10 +2,10 @@
 From Eupsv Require Import Base.Base Model.Lock.
 From Coq Require Import Lia.
 
-Lemma upd_same {A} (f : pid -> A) p v : upd f p v p = v.
+Lemma upd_same {A} (f : nat -> A) p v : upd f p v p = v.
 Proof. unfold upd. now rewrite Nat.eqb_refl. Qed.
 
-Lemma upd_other {A} (f : pid -> A) p v q : q <> p -> upd f p v q = f q.
+Lemma upd_other {A} (f : nat -> A) p v q : q <> p -> upd f p v q = f q.
 Proof. unfold upd. intro H. apply Nat.eqb_neq in H. now rewrite H. Qed.
 
 Lemma mem_In p fs : mem p fs = true <-> In p fs.
@@ -103,11 +103,55 @@ Proof.
   unfold isEx in Hx. destruct (H q Hin) as [?|[?|Hs]]; try contradiction. rewrite Hs in Hx. discriminate.
 Qed.
 
-Lemma run_gen_app fx cfg s a b : run_gen fx cfg s (a ++ b) = run_gen fx cfg (run_gen fx cfg s a) b.
+Lemma run_gen_app fx fr cfg s a b :
+  run_gen fx fr cfg s (a ++ b) = run_gen fx fr cfg (run_gen fx fr cfg s a) b.
 Proof. revert s. induction a as [|[p c] r IH]; intro s; cbn [run_gen app]; [reflexivity | apply IH]. Qed.
 
-Lemma reachable_run fx cfg s sched : reachable_gen fx cfg s -> reachable_gen fx cfg (run_gen fx cfg s sched).
+Lemma reachable_run fx fr cfg s sched :
+  reachable_gen fx fr cfg s -> reachable_gen fx fr cfg (run_gen fx fr cfg s sched).
 Proof.
   revert s. induction sched as [|[p c] r IH]; intros s H; cbn [run_gen]; [assumption|].
   apply IH. now constructor.
+Qed.
+
+(* two positions of a duplicate-free path that name the same stack are the same position *)
+Lemma nodup_nth_eq (l : list nat) x y k :
+  NoDup l -> nth_error l x = Some k -> nth_error l y = Some k -> x = y.
+Proof.
+  intros N X Y. apply (proj1 (NoDup_nth_error l) N).
+  - apply nth_error_Some. congruence.
+  - congruence.
+Qed.
+
+Lemma nth_error_lt {A} (l : list A) x k : nth_error l x = Some k -> x < length l.
+Proof. intro H. apply nth_error_Some. congruence. Qed.
+
+Lemma nth_error_in_ex {A} (l : list A) k : In k l -> exists x, nth_error l x = Some k.
+Proof. apply In_nth_error. Qed.
+
+(* duplicate-free paths, decidably, for configurations given as lists *)
+Fixpoint nodupb (l : list nat) : bool :=
+  match l with [] => true | x :: r => negb (mem x r) && nodupb r end.
+
+Lemma nodupb_NoDup l : nodupb l = true -> NoDup l.
+Proof.
+  induction l as [|x r IH]; cbn [nodupb]; intro H; [constructor|].
+  apply andb_true_iff in H. destruct H as [A B]. apply negb_true_iff in A. apply mem_false in A.
+  constructor; auto.
+Qed.
+
+Lemma wf_cfg_of (l : procs) : forallb (fun e => nodupb (snd (snd e))) l = true -> wf (cfg_of l).
+Proof.
+  intros H p. unfold cfg_of. cbn [path_of].
+  induction l as [|[q v] r IH]; cbn [cfg_lookup].
+  - constructor.
+  - cbn [forallb] in H. apply andb_true_iff in H. destruct H as [A B].
+    destruct (Nat.eqb q p); [now apply nodupb_NoDup | now apply IH].
+Qed.
+
+Lemma share_stack_true cfg p q :
+  share_stack cfg p q = true -> exists k, In k (path_of cfg p) /\ In k (path_of cfg q).
+Proof.
+  unfold share_stack. intro H. apply existsb_exists in H. destruct H as (k & A & B).
+  exists k. split; [assumption | now apply mem_In].
 Qed.
